@@ -26,7 +26,8 @@ func runC19(seed uint64, cs, gi, histories int) c19Result {
 		cfg := GenCfg(r, 0)
 		p := DefaultProfile()
 		p.Steps = 90
-		p.Late = []string{fmt.Sprintf("F%d", 1200+gi), "S11", fmt.Sprintf("X%d", gi%7)}
+		// some types are unique to this goroutine and history (first seen by the process in the concurrent phase)
+		p.Late = []string{fmt.Sprintf("F%d", 100000+cs*4000+gi*50+h), "S11", fmt.Sprintf("X%d", 100000+cs*4000+gi*50+h)}
 		p.W["RegisterType"] = 2
 		p.W["ResRegister"], p.W["ResAdd"], p.W["ResRemove"] = 1, 2, 1
 		var s *Sess
@@ -72,16 +73,8 @@ func caseC19(c *Ctx) {
 	if c.Tier == "thorough" {
 		goroutines, histories = 32, 8
 	}
-	// solo: the same histories one after the other
-	solo := make([]c19Result, goroutines)
-	for gi := 0; gi < goroutines; gi++ {
-		solo[gi] = runC19(c.Seed, c.Case, gi, histories)
-		if len(solo[gi].viol) > 0 {
-			c.Fail(solo[gi].viol[0], map[string]any{"goroutine": gi, "phase": "solo"})
-			return
-		}
-	}
-	// concurrent: one goroutine per world
+	// concurrent first (one goroutine per world): types, filters and listeners are then seen for the first time
+	// by several goroutines at once, so lazily initialised package-level state is reached while it is still being written
 	conc := make([]c19Result, goroutines)
 	var wg sync.WaitGroup
 	start := make(chan struct{})
@@ -95,6 +88,15 @@ func caseC19(c *Ctx) {
 	}
 	close(start)
 	wg.Wait()
+	// solo: the same histories one after the other
+	solo := make([]c19Result, goroutines)
+	for gi := 0; gi < goroutines; gi++ {
+		solo[gi] = runC19(c.Seed, c.Case, gi, histories)
+		if len(solo[gi].viol) > 0 {
+			c.Fail(solo[gi].viol[0], map[string]any{"goroutine": gi, "phase": "solo"})
+			return
+		}
+	}
 	kindCount := map[string]int{}
 	for gi := 0; gi < goroutines; gi++ {
 		c.Cov.Merge(conc[gi].cov)
